@@ -150,7 +150,7 @@ func propC10(a *Analysis, r *Registry) {
 			target := tnext.Add(env.Vars["w"].RF)
 			ti, tn := fc.Recurrence(target)
 			env.Set("target", target, nil)
-			b.Eq(rB, name+"/weighted/target-init", b.pos(fn), ti, env, "s.Weight()*q")
+			b.EqUnder(rB, name+"/weighted/target-init", b.pos(fn), fc, ti, env, "s.Weight()*q")
 			b.EqRF(rB, name+"/weighted/target-step", b.pos(fn), tn, tnext, "target -= Weights[i], tested after the subtraction")
 			b.Eq(rB, name+"/weighted/fallthrough", a.W.InstrPos(last), fc.Val(last.Results[0]), env, "s.Xs[len(s.Xs)-1]")
 		})
